@@ -240,8 +240,42 @@ def model_check(chk):
     chk.extra["pipeline_model_configurations"] = sum(len(w[4]) * 2 * len(w[2]) for w in work)
 
 
+def mailbox_kill(chk):
+    """Condition-variable level: spec/Mailbox.tla with a killer thread (kill(upstream=True) at an arbitrary moment) is model-checked
+    over all schedules - every thread finds its way out (NoDeadlock, Termination), deliveries stay in order - and every edge of the
+    TLC graph is replayed lock-step on the real strax.Mailbox (the bisimulation of C05, extended to kills)."""
+    import c05
+    quick = chk.tier == "quick"
+    cs = []
+    for nsub in (1, 2):
+        for nmsg in ((1, 2) if quick else (0, 1, 2, 3)):
+            for cap in ((1,) if quick else (1, 2)):
+                cs.append(dict(NMsg=nmsg, NSub=nsub, Cap=cap, Lazy=False, Drive=[True] * nsub, Mode="iter", Perm=[], Fut=[], Kill=True))
+            for mask in ([[True] * nsub] if quick else [list(m) for m in __import__("itertools").product([True, False], repeat=nsub) if any(m)]):
+                cs.append(dict(NMsg=nmsg, NSub=nsub, Cap=1, Lazy=True, Drive=mask, Mode="iter", Perm=[], Fut=[], Kill=True))
+    if not quick:
+        cs.append(dict(NMsg=2, NSub=2, Cap=2, Lazy=False, Drive=[True, True], Mode="iter", Perm=[], Fut=[0], Kill=True))
+    res = V.pmap(c05.job, [(c, chk.tier, chk.seed, 1200 if quick else 5000) for c in cs])
+    steps = 0
+    for r in res:
+        if r.get("machinery"):
+            raise V.MachineryError(r["machinery"])
+        chk.states += r["states"]
+        chk.transitions += r["transitions"]
+        chk.tlc_runs.append(dict(what="Mailbox.tla with killer thread " + r["name"], **r["tlc"]))
+        chk.traces += r["paths"] + r["random_runs"]
+        steps += r["steps"]
+        for dr in r["drift"]:
+            chk.drift.append(dr)
+        for v in r["violations"]:
+            chk.violation(v["sig"].replace("C05:", "C06:mailbox-kill:"), f"mailbox {r['name']} with a kill at an arbitrary moment: " + v["text"], dict(mailbox=v["replay"]))
+    chk.extra["mailbox_kill_configurations"] = len(cs)
+    chk.extra["mailbox_kill_lockstep_steps"] = steps
+
+
 def run(chk):
     V.quiet_threads()
+    mailbox_kill(chk)
     model_check(chk)
     S = scenarios(chk.tier)
     nsched = 6 if chk.tier == "quick" else 40
@@ -277,6 +311,12 @@ def run(chk):
 
 def replay(chk, path):
     rp = json.load(open(path))["replay"]
+    if "mailbox" in rp:
+        import c05
+        m = rp["mailbox"]
+        bad, _ = c05.run_schedule(m["cfg"], lambda en: en[0], prefix=m.get("schedule", []))
+        print(bad or "holds")
+        return 1 if bad else 0
     sc = rp["sc"]
     if sc.get("fail"):
         sc["fail"] = tuple(sc["fail"])
